@@ -53,12 +53,22 @@ def ilCast {n : Nat} (w : Nat) (fill : Bool) (x : BitVec n) : BitVec w :=
 def ilDiv {w : Nat} (x y : BitVec w) : BitVec w := if y = 0 then BitVec.allOnes w else x / y
 def ilMod {w : Nat} (x y : BitVec w) : BitVec w := if y = 0 then x else x % y
 
+/-- `x <<< n`, computed without materialising `x.toNat <<< n` when the amount exceeds the width (an IL shift amount
+    is an arbitrary bitvector value: the run-time `Nat.shiftLeft` cannot allocate 2^64 bits). -/
+def shl {w : Nat} (x : BitVec w) (n : Nat) : BitVec w := if w ≤ n then 0#w else x <<< n
+
+@[simp] theorem shl_eq {w : Nat} (x : BitVec w) (n : Nat) : shl x n = x <<< n := by
+  unfold shl
+  split
+  · next h => exact (BitVec.shiftLeft_eq_zero h).symm
+  · rfl
+
 def evalBin (op : BinOp) (a b : Val) : Except Stuck Val :=
   match a, b with
   | .bv wa x, .bv wb y =>
     if isShift op then
       match op with
-      | .shiftl0 => .ok (.bv wa (x <<< y.toNat))
+      | .shiftl0 => .ok (.bv wa (shl x y.toNat))
       | .shiftr0 => .ok (.bv wa (x >>> y.toNat))
       | _ => .ok (.bv wa (x.sshiftRight y.toNat))
     else if h : wa = wb then
